@@ -343,7 +343,13 @@ impl<'r> Cx<'r> {
                     for _ in 0..self.sigs[j].0 {
                         self.expr(1);
                     }
-                    self.out.push(I::ReturnCall(j as u32 + 1));
+                    if self.rng.chance(1, 3) {
+                        // tail call through the table: slot j holds function j+1
+                        self.out.push(I::I32Const(j as i32));
+                        self.out.push(I::ReturnCallIndirect { type_index: self.type_of_sig[j], table_index: 0 });
+                    } else {
+                        self.out.push(I::ReturnCall(j as u32 + 1));
+                    }
                 } else {
                     self.push_results();
                     self.out.push(I::Return);
